@@ -270,6 +270,54 @@ pub fn families() -> Vec<Box<dyn Family>> {
                     let hunks: Vec<Vec<DiffOp>> = u.iter_hunks().map(|h| h.ops().to_vec()).collect();
                     (ops, n, d.grouped_ops(n), hunks)
                 });
+                // two sub-slices of ONE token buffer with a common start (aliased inputs), and the
+                // one-call helper udiff::unified_diff against the builder
+                {
+                    let k = rng.below(ra.len() + 1);
+                    let m = rng.below(ra.len() + 1);
+                    let n2 = *rng.pick(&NS);
+                    out.eval();
+                    let r2 = guard(|| {
+                        let d = TextDiff::configure().algorithm(alg).diff_slices(&ra[..k], &ra[..m]);
+                        (d.ops().to_vec(), d.grouped_ops(n2))
+                    });
+                    match r2 {
+                        Err(p) => out.violation("panic", format!("TextDiff over aliased slices panicked: {}", p)),
+                        Ok((ops, groups)) => {
+                            let expect = reference_groups(&ops, n2);
+                            if strip_empty_equal(&groups) != expect {
+                                out.violation(
+                                    "group.differs_from_reference",
+                                    format!("TextDiff::grouped_ops({}) over two sub-slices [..{}] / [..{}] of one token buffer: ops={} | got {} | reference {}", n2, k, m, fmt_ops(&ops), fmt_groups(&groups), fmt_groups(&expect)),
+                                );
+                            }
+                        }
+                    }
+                    let ta: String = sa.concat();
+                    let tb: String = sb.concat();
+                    let n3 = *rng.pick(&[0usize, 1, 2, 3, 5]);
+                    out.eval();
+                    let r3 = guard(|| {
+                        let helper_plain = similar::udiff::unified_diff(alg, &ta, &tb, n3, None);
+                        let helper_hdr = similar::udiff::unified_diff(alg, &ta, &tb, n3, Some(("a", "b")));
+                        let d = TextDiff::configure().algorithm(alg).diff_lines(&ta, &tb);
+                        let builder_plain = d.unified_diff().context_radius(n3).to_string();
+                        let builder_hdr = d.unified_diff().context_radius(n3).header("a", "b").to_string();
+                        let hunks_builder = d.unified_diff().context_radius(n3).iter_hunks().count();
+                        (helper_plain == builder_plain, helper_hdr == builder_hdr, helper_plain.matches("\n@@ -").count() + helper_plain.starts_with("@@ -") as usize, hunks_builder)
+                    });
+                    match r3 {
+                        Err(p) => out.violation("panic", format!("udiff::unified_diff panicked: {}", p)),
+                        Ok((p1, p2, nh_helper, nh_builder)) => {
+                            if !p1 || !p2 {
+                                out.violation(
+                                    "group.helper_groups_differently",
+                                    format!("udiff::unified_diff(alg, old, new, {}, header {}) does not render the groups of context_radius({}): {} vs {} hunks | alg={} old={} new={}", n3, if !p1 { "None" } else { "Some" }, n3, nh_helper, nh_builder, alg_name(alg), fmt_seq(&a), fmt_seq(&b)),
+                                );
+                            }
+                        }
+                    }
+                }
                 out.eval();
                 match r {
                     Err(p) => out.violation("panic", format!("TextDiff::grouped_ops panicked: {} | old={} new={}", p, fmt_seq(&a), fmt_seq(&b))),
